@@ -15,6 +15,7 @@ import (
 	"os"
 	"reflect"
 	"sort"
+	"sync"
 	"time"
 )
 
@@ -34,6 +35,9 @@ type Hooks struct {
 	Stat   func(name string) (fs.FileInfo, error)
 	// Go is told about `go` statements found in the instrumented package (R6).
 	Go func(f func())
+	// Blocked is called by a task that cannot take a lock (or waits for a
+	// running sync.Once): the scheduler must let somebody else run.
+	Blocked func()
 }
 
 // H is the installed simulation, nil when none is running.
@@ -262,4 +266,85 @@ func Go(f func()) {
 		return
 	}
 	go f()
+}
+
+// SimLock replaces X.Lock() / X.RLock(): under the simulator a contended lock
+// hands control to the scheduler instead of blocking the goroutine for real.
+func SimLock(lock func(), try func() bool) {
+	h := H
+	if h == nil || h.Blocked == nil {
+		lock()
+		return
+	}
+	for !try() {
+		h.Blocked()
+	}
+}
+
+type onceState struct{ running, done bool }
+
+var onces = map[*sync.Once]*onceState{}
+
+// ResetSync forgets what the simulator knows about sync.Once values; called
+// whenever the package state is reset to its pristine copy.
+func ResetSync() {
+	onces = map[*sync.Once]*onceState{}
+	pools = map[*sync.Pool][]interface{}{}
+}
+
+var pools = map[*sync.Pool][]interface{}{}
+
+// PoolGet / PoolPut replace sync.Pool.Get / Put: the real pool is emptied by
+// the garbage collector at unpredictable moments, which would make the number
+// of scheduling points taken (New is instrumented code) differ from run to run.
+// Under the simulator a pool is a plain LIFO free list - objects ARE reused, so
+// a buffer handed back while still referenced is still observable.
+func PoolGet(p *sync.Pool) interface{} {
+	h := H
+	if h == nil || h.Blocked == nil {
+		return p.Get()
+	}
+	if l := pools[p]; len(l) > 0 {
+		v := l[len(l)-1]
+		pools[p] = l[:len(l)-1]
+		return v
+	}
+	if p.New != nil {
+		return p.New()
+	}
+	return nil
+}
+
+func PoolPut(p *sync.Pool, v interface{}) {
+	h := H
+	if h == nil || h.Blocked == nil {
+		p.Put(v)
+		return
+	}
+	pools[p] = append(pools[p], v)
+}
+
+// SimOnce replaces once.Do(f): a second caller arriving while f is still
+// running (f may contain scheduling points) waits cooperatively.
+func SimOnce(o *sync.Once, f func()) {
+	h := H
+	if h == nil || h.Blocked == nil {
+		o.Do(f)
+		return
+	}
+	st := onces[o]
+	if st == nil {
+		st = &onceState{}
+		onces[o] = st
+	}
+	for st.running {
+		h.Blocked()
+	}
+	if st.done {
+		o.Do(f) // returns at once
+		return
+	}
+	st.running = true
+	defer func() { st.running, st.done = false, true }()
+	o.Do(f)
 }
